@@ -17,14 +17,17 @@
    if optional and a missing_value error otherwise; flat enum: definite array, non-empty,
    [d.i64()?] selects the arm.
 
-   Not modelled (differential only): #[cbor(map)] structs, gaps in the index sequence,
-   #[cbor(with/tag/transparent/default)], the hand-written codecs, KeepRaw. *)
+   #[cbor(map)] structs, #[cbor(tag(n))], String and opaque leaves (one raw CBOR item, for
+   hand-written codecs / maps / sets / KeepRaw) are further down. Not modelled: gaps in the index
+   sequence of an array struct (wf_schema rejects them), #[cbor(with/default)]. *)
 From PV Require Import Lib.Base Cbor.Item Cbor.Enc Cbor.Dec Cbor.Api.
 Open Scope Z_scope.
 
 Inductive value : Type :=
 | VInt (n : Z)
 | VBytes (b : list Z)
+| VText (b : list Z)               (* String: the UTF-8 bytes *)
+| VRaw (b : list Z)                (* an opaque leaf: the raw bytes of one CBOR item *)
 | VBool (b : bool)
 | VNone
 | VSome (v : value)
@@ -38,6 +41,10 @@ Record codec : Type := Codec {
   c_dec : list Z -> dres (value * list Z);
   c_ty : value -> Prop               (* the values of the Rust type *)
 }.
+
+(* Option<T>::decode takes an encoding for a value (not for null) *)
+Definition not_null (e r : list Z) : Prop :=
+  exists t, d_datatype (e ++ r) = DOk t /\ ctype_eqb t TNull = false.
 
 Definition u64_max1 : Z := 18446744073709551616.
 Definition i64_half : Z := 9223372036854775808.
@@ -59,6 +66,27 @@ Definition enc_bool (v : value) : list Z := match v with VBool b => e_bool b | _
 Definition c_bool : codec :=
   Codec enc_bool (fun bs => dmap (fun p => (VBool (fst p), snd p)) (d_bool bs))
         (fun v => exists b, v = VBool b).
+
+(* String: Encoder::str / Decoder::str (definite, valid UTF-8) *)
+Definition enc_text (v : value) : list Z := match v with VText b => e_str b | _ => [] end.
+Definition c_text : codec :=
+  Codec enc_text (fun bs => dmap (fun p => (VText (fst p), snd p)) (d_str bs))
+        (fun v => exists b, v = VText b /\ bytes_wf b /\ utf8_valid b = true /\ len b < u64_max1).
+
+(* #[cbor(tag(t))]: the tag, then the value; the decoder insists on the same tag *)
+Definition c_tag (t : Z) (c : codec) : codec :=
+  Codec (fun v => e_tag t ++ c_enc c v)
+        (fun bs => dbind (d_tag bs) (fun '(t', r) => if t' =? t then c_dec c r else DErr))
+        (c_ty c).
+
+(* an opaque leaf (hand-written codec, map, set, KeepRaw, ...): exactly one well-formed CBOR
+   item kept as raw bytes, like KeepRaw / AnyCbor; the item must not be one that
+   Option<T>::decode reads as null *)
+Definition consumed (bs r : list Z) : list Z := firstn (length bs - length r) bs.
+Definition enc_raw (v : value) : list Z := match v with VRaw b => b | _ => [] end.
+Definition c_raw : codec :=
+  Codec enc_raw (fun bs => dbind (decode bs) (fun '(_, r) => DOk (VRaw (consumed bs r), r)))
+        (fun v => exists i, v = VRaw (encode_item i) /\ wf_item i = true /\ forall r, not_null (encode_item i) r).
 
 (* ---- Vec<T> ---- *)
 Definition enc_vec (c : codec) (v : value) : list Z :=
@@ -207,46 +235,179 @@ Definition c_index (idxs : list Z) : codec :=
   Codec enc_index (dec_index idxs)
         (fun v => exists idx, v = VVar idx [] /\ In idx idxs /\ - i64_half <= idx < i64_half).
 
+(* ---- #[cbor(map)] struct (integer keys): see MapStruct.v for the description and proofs ---- *)
+Definition mfield : Type := (Z * field)%type.      (* #[n(idx)], (is Option, codec) *)
+
+Fixpoint find_field (key : Z) (fs : list mfield) : option field :=
+  match fs with
+  | [] => None
+  | (i, f) :: t => if i =? key then Some f else find_field key t
+  end.
+
+(* number of entries written, and the entries *)
+Fixpoint live_count (fs : list mfield) (vs : list value) : nat :=
+  match fs, vs with
+  | (_, f) :: fs', v :: vs' => ((if is_nil f v then 0 else 1) + live_count fs' vs')%nat
+  | _, _ => O
+  end.
+Fixpoint enc_entries (fs : list mfield) (vs : list value) : list Z :=
+  match fs, vs with
+  | (i, f) :: fs', v :: vs' =>
+    (if is_nil f v then [] else e_int i ++ enc_field f v) ++ enc_entries fs' vs'
+  | _, _ => []
+  end.
+
+(* the decoder's field variables: key -> value seen last *)
+Definition mstate : Type := list (Z * value).
+Fixpoint lookup (key : Z) (st : mstate) : option value :=
+  match st with
+  | [] => None
+  | (k, v) :: t => if k =? key then Some v else lookup key t
+  end.
+
+(* for _ in 0..n { match d.i64()? { idx => field = decode, _ => skip } } *)
+Fixpoint dec_entries_n (fs : list mfield) (fuel : nat) (n : Z) (st : mstate) (bs : list Z)
+  : dres (mstate * list Z) :=
+  if n <=? 0 then DOk (st, bs) else
+  match fuel with
+  | O => DErr
+  | S k =>
+    dbind (d_i64 bs) (fun '(key, r) =>
+      match find_field key fs with
+      | Some f => dbind (dec_field f r) (fun '(v, r') => dec_entries_n fs k (n - 1) ((key, v) :: st) r')
+      | None => dbind (skip_one r) (fun '(_, r') => dec_entries_n fs k (n - 1) st r')
+      end)
+  end.
+
+(* while Break != datatype { .. }; skip the break *)
+Fixpoint dec_entries_indef (fs : list mfield) (fuel : nat) (st : mstate) (bs : list Z)
+  : dres (mstate * list Z) :=
+  match fuel with
+  | O => DErr
+  | S k =>
+    match bs with
+    | [] => DEoi
+    | b :: r0 =>
+      if b =? break_byte then DOk (st, r0) else
+      dbind (d_i64 bs) (fun '(key, r) =>
+        match find_field key fs with
+        | Some f => dbind (dec_field f r) (fun '(v, r') => dec_entries_indef fs k ((key, v) :: st) r')
+        | None => dbind (skip_one r) (fun '(_, r') => dec_entries_indef fs k st r')
+        end)
+    end
+  end.
+
+(* the struct expression: each field from its variable, None for an unseen Option, else error *)
+Fixpoint finish (fs : list mfield) (st : mstate) : option (list value) :=
+  match fs with
+  | [] => Some []
+  | (i, f) :: t =>
+    match (match lookup i st with Some v => Some v | None => if fst f then Some VNone else None end),
+          finish t st with
+    | Some v, Some vs => Some (v :: vs)
+    | _, _ => None
+    end
+  end.
+
+Definition enc_mapstruct (fs : list mfield) (v : value) : list Z :=
+  match v with
+  | VRec vs => e_map (Z.of_nat (live_count fs vs)) ++ enc_entries fs vs
+  | _ => []
+  end.
+Definition dec_mapstruct (fs : list mfield) (bs : list Z) : dres (value * list Z) :=
+  dbind (d_map bs) (fun '(l, r) =>
+    dbind (match l with
+           | Some n => dec_entries_n fs (budget r) n [] r
+           | None => dec_entries_indef fs (budget r) [] r
+           end) (fun '(st, r') =>
+      match finish fs st with Some vs => DOk (VRec vs, r') | None => DErr end)).
+Definition mapstruct_ty (fs : list mfield) (v : value) : Prop :=
+  exists vs, v = VRec vs /\ Forall2 (fun mf x => field_ty (snd mf) x) fs vs.
+Definition c_mapstruct (fs : list mfield) : codec :=
+  Codec (enc_mapstruct fs) (dec_mapstruct fs) (mapstruct_ty fs).
+
 (* ---------------------------------------------------------------- schemas *)
+From Coq Require String.
+
+(* fields carry their #[n(i)] index: (index, (is Option<T>, schema of T)) *)
 Inductive schema : Type :=
 | SUInt (bits : Z)                            (* 8, 16, 32, 64 *)
 | SInt64
 | SBytes
+| SText
 | SBool
 | SVec (s : schema)
-| SArray (fields : list (bool * schema))      (* struct, #[n(0)] .. #[n(k-1)] *)
-| SFlat (arms : list (Z * list (bool * schema)))
-| SIndexOnly (idxs : list Z).
+| SArray (fields : list (Z * (bool * schema)))      (* struct, array encoding: indices 0 .. k-1 *)
+| SMap (fields : list (Z * (bool * schema)))        (* struct, #[cbor(map)] *)
+| SFlat (arms : list (Z * list (Z * (bool * schema))))   (* #[cbor(flat)] enum *)
+| SIndexOnly (idxs : list Z)
+| STag (t : Z) (s : schema)                   (* #[cbor(tag(t))] *)
+| SCustom (name : String.string).                    (* opaque leaf: one raw CBOR item *)
 
 Fixpoint codec_of (s : schema) : codec :=
   match s with
   | SUInt bits => c_uint (2 ^ bits)
   | SInt64 => c_i64
   | SBytes => c_bytes
+  | SText => c_text
   | SBool => c_bool
   | SVec s' => c_vec (codec_of s')
-  | SArray fields => c_struct (map (fun f => (fst f, codec_of (snd f))) fields)
-  | SFlat arms => c_flat (map (fun a => (fst a, map (fun f => (fst f, codec_of (snd f))) (snd a))) arms)
+  | SArray fields => c_struct (map (fun f => (fst (snd f), codec_of (snd (snd f)))) fields)
+  | SMap fields => c_mapstruct (map (fun f => (fst f, (fst (snd f), codec_of (snd (snd f))))) fields)
+  | SFlat arms =>
+    c_flat (map (fun a => (fst a, map (fun f => (fst (snd f), codec_of (snd (snd f)))) (snd a))) arms)
   | SIndexOnly idxs => c_index idxs
+  | STag t s' => c_tag t (codec_of s')
+  | SCustom _ => c_raw
   end.
 
 Definition enc_schema (s : schema) (v : value) : list Z := c_enc (codec_of s) v.
 Definition dec_schema (s : schema) (bs : list Z) : dres (value * list Z) := c_dec (codec_of s) bs.
 Definition has_type (v : value) (s : schema) : Prop := c_ty (codec_of s) v.
 
-(* decidable side conditions: integer widths, distinct enum indices within i64 *)
+(* decidable side conditions *)
 Fixpoint nodupb (l : list Z) : bool :=
   match l with [] => true | x :: t => negb (existsb (Z.eqb x) t) && nodupb t end.
 Definition idx_ok (i : Z) : bool := (- i64_half <=? i) && (i <? i64_half).
+(* the indices of an array-encoded field list are exactly 0, 1, .., k-1 in this order
+   (the derive macro sorts by index; a gap would be filled with nulls, which is not modelled) *)
+Fixpoint contiguous (from : Z) (idxs : list Z) : bool :=
+  match idxs with [] => true | i :: t => (i =? from) && contiguous (from + 1) t end.
 
 Fixpoint wf_schema (s : schema) : bool :=
   match s with
   | SUInt bits => (bits =? 8) || (bits =? 16) || (bits =? 32) || (bits =? 64)
-  | SInt64 | SBytes | SBool => true
+  | SInt64 | SBytes | SText | SBool | SCustom _ => true
   | SVec s' => wf_schema s'
-  | SArray fields => (len fields <? 65536) && forallb (fun f => wf_schema (snd f)) fields
+  | SArray fields =>
+    contiguous 0 (map fst fields) && (len fields <? 65536) && forallb (fun f => wf_schema (snd (snd f))) fields
+  | SMap fields =>
+    nodupb (map fst fields) && forallb (fun f => idx_ok (fst f)) fields && (len fields <? 65536) &&
+    forallb (fun f => wf_schema (snd (snd f))) fields
   | SFlat arms =>
     nodupb (map fst arms) && forallb (fun a => idx_ok (fst a)) arms &&
-    forallb (fun a => (len (snd a) <? 65536) && forallb (fun f => wf_schema (snd f)) (snd a)) arms
+    forallb (fun a => contiguous 0 (map fst (snd a)) && (len (snd a) <? 65536) &&
+                      forallb (fun f => wf_schema (snd (snd f))) (snd a)) arms
   | SIndexOnly idxs => nodupb idxs && forallb idx_ok idxs
+  | STag t s' => (0 <=? t) && (t <? u64_max1) && wf_schema s'
   end.
+
+(* no opaque leaf anywhere: every value of the Rust type is a typed value of the schema *)
+Fixpoint fully_modelled (s : schema) : bool :=
+  match s with
+  | SCustom _ => false
+  | SVec s' | STag _ s' => fully_modelled s'
+  | SArray fields | SMap fields => forallb (fun f => fully_modelled (snd (snd f))) fields
+  | SFlat arms => forallb (fun a => forallb (fun f => fully_modelled (snd (snd f))) (snd a)) arms
+  | _ => true
+  end.
+
+(* a named (generated) schema *)
+Definition wf_schema_gen (ns : String.string * schema) : bool := wf_schema (snd ns).
+Fixpoint lookup_schema (name : String.string) (l : list (String.string * schema)) : option schema :=
+  match l with
+  | [] => None
+  | (n, s) :: t => if String.eqb n name then Some s else lookup_schema name t
+  end.
+Fixpoint names_nodup (l : list String.string) : bool :=
+  match l with [] => true | x :: t => negb (existsb (String.eqb x) t) && names_nodup t end.
